@@ -104,11 +104,23 @@ def hier_case(rng, levels=None, last_all_atom=True, share_p=0.0, virtual_p=0.0):
             ext = cur.copy()          # beads shared between two groups are added as extra copies
             names = dict(names)
             grp = dict(grp)
+            # now and then all bonds between the same two groups share ONE label: what tells them apart is their order
+            pair_labels = rng.random() < 0.25
+            pair_orders = collections.defaultdict(list)
+            for a, b, o in cur.edges(data='order'):
+                if grp[a] != grp[b]:
+                    pair_orders[(min(grp[a], grp[b]), max(grp[a], grp[b]))].append(o)
             for a, b, o in list(cur.edges(data='order')):
                 if grp[a] != grp[b]:
                     lab += 1
                     kind = rng.choice(['$', '><'])
                     L = 'Q%d%d' % (lv, lab)
+                    po = pair_orders[(min(grp[a], grp[b]), max(grp[a], grp[b]))]
+                    if pair_labels and len(po) > 1 and len(set(po)) == len(po):
+                        L = 'P%dx%dx%d' % (lv, min(grp[a], grp[b]), max(grp[a], grp[b]))
+                        kind = '><'
+                        if grp[a] > grp[b]:
+                            a, b = b, a          # '>' always on the lower group: equal labels never pair the wrong way round
                     if share_p and rng.random() < share_p and (grp[a], b) not in shared_into:
                         shared_into.add((grp[a], b))     # one copy of a bead per group
                         # the group of `a` gets a copy b' of bead b, bonded to a; b' and b carry the '!' pair
